@@ -295,10 +295,10 @@ pub fn model_cli(m: &mut Model, w: &World, args: &[String], ra: &[u8], rb: &[u8]
     let q = format!("{} {} {} {} {} {}", pairs(&w.files), pairs(&env), hexd(&w.stdin), hexd(ra), hexd(rb), argv.join(","));
     let resp = m.ask(&format!("cli_run {}", q));
     let o = parse_model_obs(&resp);
-    // the GENERATED program (main.rs / commands.rs translated by tools/rs2lean_cli.py) on the same world: wherever it does not reach a
-    // streaming library call (those have no meaning in the translation) it must end like the hand-written model
+    // the GENERATED program (main.rs / commands.rs translated by tools/rs2lean_cli.py, its streaming library calls given the meaning of the
+    // GENERATED encrypt.rs / decrypt.rs functions — KestrelModel/RsCliStream.lean) on the same world: it must end like the hand-written model
     let rsrc = m.ask(&format!("cli_run_src {}", q));
-    if rsrc.contains("libcall=0") && rsrc.contains("outoffuel=0") {
+    if rsrc.contains("libcall=") && rsrc.contains("outoffuel=0") {
         let g = parse_model_obs(&rsrc);
         // (the help and version texts are not part of the hand-written model: a successful run for which it predicts no output is compared on exit status and files)
         let informational = o.exit == 0 && o.stdout.is_empty();
